@@ -213,6 +213,18 @@ def frames_for(u: bytes, rng: random.Random, *, hang_risk_ok: bool) -> list[dict
         add("zstd_lie_huge", "zstd", patch_fcs(z1, 1 << 40), u, honest=False)
     add("zstd_trailing_junk", "zstd", z1 + b"JUNKJUNK", u, ambiguous="bytes after the last frame: 400 or the framed content are both defensible")
     add("zstd_truncated", "zstd", z1[: max(5, len(z1) // 2)], None)
+    # streaming frame (no content size) that ends in a 4-byte content checksum, and every short cut of the tail of
+    # each frame flavour: the frame is incomplete, so the body is undecodable
+    cks = zstandard.ZstdCompressor(level=1, write_checksum=True).compressobj()
+    zsc = cks.compress(u) + cks.flush()
+    add("zstd_nofcs_checksum", "zstd", zsc, u)
+    for base_name, base in (("fcs", z1), ("nofcs", zs), ("fcs_checksum", zc), ("nofcs_checksum", zsc)):
+        for k in (1, 2, 3, 4, 5):
+            if len(base) > k + 4:
+                add(f"zstd_truncated_tail{k}_{base_name}", "zstd", base[:-k], None)
+    for k in (1, 4, 8, 9):
+        if len(gz(u)) > k + 10:
+            add(f"gzip_truncated_tail{k}", "gzip", gz(u)[:-k], None)
     add("zstd_garbage", "zstd", rng.randbytes(rng.choice([1, 9, 200])), None)
     add("zstd_plain_body", "zstd", u if u else b"\x00", None)
     # --- gzip ---------------------------------------------------------------
